@@ -31,8 +31,11 @@
    MISSING for the full statement: the root record decode, the DbVec / graph / multi-map / index loaders and
    the query layer above the storage (their crash sites were explored by mutation, repaired in /repo, and are
    re-checked by the mutation run on every check; two classes there are known findings: cyclic sibling-edge
-   lists make searches run forever / grow without bound); the current tree lacks the log position check
-   (flag og_wal_pos), for which C07_current_log_position_refuted shows the violation. *)
+   lists make searches run forever / grow without bound).  The log position check (flag og_wal_pos) is the
+   repair fixes/C07-wal-position.diff; checks/c07.py reads off the source tree whether it is present (then the
+   tree corresponds to og_fixed and the two classes alloc-FileStorage.read/FileStorageMemoryMapped.new and
+   hang-Storage.read_records are no longer accepted) or not (og_current, for which
+   C07_current_log_position_refuted shows the violation). *)
 From Agdb Require Import Bytes Utf8 Codec DbValue ValueIndex ValueIndexProofs OpenFile OpenFileProofs ValueLoadProofs.
 Open Scope N_scope.
 
@@ -46,6 +49,30 @@ Theorem C07_open_total_partial :
     end.
 Proof. exact open_file_total. Qed.
 Print Assumptions C07_open_total_partial.
+
+(* the replay of the recovery log with the position check: a record is applied only inside the file or at
+   its end (otherwise the open fails with an error), it extends the file by at most its own payload, and
+   the whole recovery by at most the length of the log — the file can no longer be extended sparsely *)
+Theorem C07_replay_record_bound :
+  forall (be : backend) (limit : N) (d : bytes) (pos : N) (v d' : bytes),
+    wal_apply_rec og_fixed be limit d (pos, v) = OOk d' ->
+    pos <= lenN d /\ lenN d' <= N.max (lenN d) (pos + lenN v).
+Proof. exact replay_record_bound. Qed.
+Print Assumptions C07_replay_record_bound.
+
+Theorem C07_recovery_length_bound :
+  forall (be : backend) (limit : N) (data wal : bytes),
+    limit <= isize_max -> lenN wal <= limit ->
+    match wal_recover og_fixed be limit data wal with
+    | OOk d => lenN d <= lenN data + lenN wal
+    | OErr => True
+    | _ => False
+    end.
+Proof.
+  intros be limit data wal H1 H2. destruct (recovery_length_bound be limit data wal H1 H2) as [Hok Hlen].
+  destruct (wal_recover og_fixed be limit data wal) as [d| | |s n|]; cbn in Hok; try tauto. now apply Hlen.
+Qed.
+Print Assumptions C07_recovery_length_bound.
 
 Theorem C07_value_read_total_partial :
   forall (be : backend) (data : bytes) (wal : option bytes) (st : ostate) (i : N),
@@ -92,8 +119,8 @@ Print Assumptions C07_checks_preserve_roundtrip.
      ex_version_size   version record of 2^40 bytes: FileStorage::read allocates before it reads
      ex_log_back16     recovery log size field -16: WriteAheadLog::repair never advances
      ex_log_back8      size field -8: repair walks on, records() allocates 2^64 - 8 bytes
-     ex_log_far        log record positioned at 2^40: the file is extended sparsely — STILL so in the
-                       current tree (og_current: the position check is not applied) *)
+     ex_log_far        log record positioned at 2^40: the file is extended sparsely — still so in a tree
+                       without fixes/C07-wal-position.diff (og_current: all checks but the position check) *)
 Theorem C07_pinned_refuted :
   cls og_pinned BMemory ex_short None = 2 /\ cls og_fixed BMemory ex_short None = 1 /\
   cls og_pinned BMapped ex_short None = 2 /\ cls og_pinned BFile ex_short None = 1 /\
@@ -108,7 +135,7 @@ Theorem C07_pinned_refuted :
 Proof. exact pinned_witnesses. Qed.
 Print Assumptions C07_pinned_refuted.
 
-(* the current tree violates the property through the log position (known classes
+(* a tree without the log position check violates the property through the log position (classes
    alloc-FileStorage.read/FileStorageMemoryMapped.new and hang-Storage.read_records) *)
 Theorem C07_current_log_position_refuted :
   cls og_current BMapped ex_intact (Some ex_log_far) = 3 /\ cls og_current BFile ex_intact (Some ex_log_far) = 5.
